@@ -48,6 +48,7 @@ def required_cells(tier):
             "chain:weak-control": 3, "route:gradient": 5,
             "route:meanfield": 3, "post-flag:numpy.bool_": 5,
             "mix:identity-other-spec-same-step": 5,
+            "control-outside-window": 5,
             "mix:identity-other-side-same-float-time": 4,
             "post-flag:int": 5}
 
@@ -130,6 +131,16 @@ def run_single(case):
         extra_mix = "identity-other-side-same-float-time"
     else:
         extra_mix = None
+    # controls stamped with float times outside the computed window (more
+    # than half a step before the start / after the end) belong to no step
+    # of this computation and never act
+    outside = None
+    if i % 4 == 3:
+        kick_out = scen.random_superop(rng, d, "unitary")
+        t_out = [start - 0.8 * dt, start - 1.3 * dt,
+                 start + (nsteps + 0.7) * dt][(i // 4) % 3]
+        ctrl.add_single(float(t_out), kick_out, post=bool((i // 12) % 2))
+        outside = t_out
     # a second, unrelated control elsewhere (must not interfere)
     other = None
     if i % 3 == 0 and nsteps >= 3:
@@ -301,6 +312,8 @@ def run_single(case):
     cells += ["route:" + r for r in extra_routes]
     if extra_mix:
         cells.append("mix:" + extra_mix)
+    if outside is not None:
+        cells.append("control-outside-window")
     cells.append("post-flag:" + flag_kind)
     if i % 3 == 1:
         cells.append("record_all:False")
